@@ -158,7 +158,8 @@ enum
     PT_OUT_PART = 23,
     PT_IN_WAIT = 24,
     PT_SPAWN = 25,
-    PT_CLOCK = 26,         // a read of the (simulated) steady clock by a search thread
+    PT_CLOCK = 26,
+    PT_MUTEX_BLOCKED = 27, PT_COND_WAIT = 28, PT_SLEEP = 29, PT_JOIN = 30, PT_YIELD = 31,         // a read of the (simulated) steady clock by a search thread
 };
 
 }  // namespace sim
